@@ -30,6 +30,12 @@ func init() { Register(&Check{ID: "C15", Level: "model_checking", Run: runC15}) 
 //go:embed testdata/sigfixtures.json
 var sigFixturesJSON []byte
 
+// records whose certificate was signed by its issuer with another algorithm than the record's own
+// (ECDSA key certified by an RSA authority and vice versa, SHA-384 / SHA-512 certificate signatures)
+//
+//go:embed testdata/sigfixtures_issued.json
+var sigFixturesIssuedJSON []byte
+
 type sigFixture struct {
 	Name      string `json:"name"`
 	Algorithm string `json:"algorithm"`
@@ -45,8 +51,12 @@ func loadSigFixtures() map[string]sigFixture {
 	if err := json.Unmarshal(sigFixturesJSON, &fs); err != nil {
 		panic(err)
 	}
+	var issued []sigFixture
+	if err := json.Unmarshal(sigFixturesIssuedJSON, &issued); err != nil {
+		panic(err)
+	}
 	m := map[string]sigFixture{}
-	for _, f := range fs {
+	for _, f := range append(fs, issued...) {
 		m[f.Name] = f
 	}
 	return m
@@ -154,12 +164,19 @@ func c15Events(fx map[string]sigFixture) []Ev {
 		{"ecdsa(a,ref1,L3:)", sigJSON(e3.Signature, e3.Algorithm, e3.CertPEM)},
 		{"rsa(a,ref1,L4)", sigJSON(e4.Signature, e4.Algorithm, e4.CertPEM)},
 		{"ecdsa(a,ref1,empty)", sigJSON(e5.Signature, e5.Algorithm, e5.CertPEM)},
+		{"ecdsa-cert-issued-by-rsa(a,ref1,L1)", sigJSON(fx["ecdsa-issued-by-rsa"].Signature, fx["ecdsa-issued-by-rsa"].Algorithm, fx["ecdsa-issued-by-rsa"].CertPEM)},
+		{"rsa-cert-issued-by-ecdsa(a,ref1,L1)", sigJSON(fx["rsa-issued-by-ecdsa"].Signature, fx["rsa-issued-by-ecdsa"].Algorithm, fx["rsa-issued-by-ecdsa"].CertPEM)},
+		{"ecdsa-cert-sha384(a,ref1,L1)", sigJSON(fx["ecdsa-selfsigned-sha384"].Signature, fx["ecdsa-selfsigned-sha384"].Algorithm, fx["ecdsa-selfsigned-sha384"].CertPEM)},
+		{"rsa-cert-sha512(a,ref1,L1)", sigJSON(fx["rsa-selfsigned-sha512"].Signature, fx["rsa-selfsigned-sha512"].Algorithm, fx["rsa-selfsigned-sha512"].CertPEM)},
 		{"missing-field", `{"signature":"AAAA","algorithm":"ecdsaWithSha256"}`},
 		{"malformed", `{"signature":`},
 	}
-	for _, k := range keys {
+	for ki, k := range keys {
 		for _, p := range payloads {
 			k, p := k, p
+			if ki > 0 && strings.Contains(p.n, "-cert-") {
+				continue // certificate shapes are independent of the storage key: first key only
+			}
 			evs = append(evs, Ev{Name: fmt.Sprintf("store(%s,%s)", k.n, p.n), Build: func(View) (sdk.Msg, string) {
 				return &sigtypes.MsgStoreSignature{Creator: harness.AddrS("sigB"), StorageKey: sha256hex(k.addr + ":" + k.ref), SignatureJSON: p.js}, "sigB"
 			}})
